@@ -6,3 +6,21 @@ def with_c(ex, case):
     stubs_hash.install(ex)
     stubs_big.install(ex)
     stubs_chacha.install(ex)
+
+_DKG = {}
+
+def with_dkg(ex, case):
+    """C front-end with the uninterpreted L2 model of the DKG curve operations"""
+    from . import llvm, cstubs, cstubs_dkg, stubs_dkg
+    base = driver.get_llvm()
+    L = _DKG.get('L')
+    if L is None:
+        L = llvm.LLVM(base.mod)
+        L.stubs = dict(base.stubs)
+        cstubs_dkg.install(L)
+        _DKG['L'] = L
+    ex.llvm = L
+    stubs_hash.install(ex)
+    stubs_big.install(ex)
+    stubs_chacha.install(ex)
+    stubs_dkg.install(ex)
